@@ -75,4 +75,25 @@ def HSys.step (hs : HSys H K B C) : HOp H K B C → HSys H K B C × HOut
          .out (.hit hs.next))
       | out => ({ hs with sys := (hs.sys.step o).1 }, .out out)
 
+/-- `HSys.step` with the copy at the two clone sites computed by a function `cl` on contents instead of taken to be the
+    content itself. For the real value types `cl` is `Clone()` = `CreateNode(Encode(n))` (`Verif.Cache.cloneR`). -/
+def HSys.stepC (cl : C → C) (hs : HSys H K B C) : HOp H K B C → HSys H K B C × HOut
+  | .new c =>
+    ({ hs with heap := upd hs.heap hs.next c, next := hs.next + 1, client := hs.next :: hs.client }, .ref hs.next)
+  | .mutate r c =>
+    if r ∈ hs.client then ({ hs with heap := upd hs.heap r c }, .unit) else (hs, .unit)
+  | .op o =>
+    match o.valArg with
+    | some r =>
+      ({ sys := (hs.sys.step (o.withVal hs.next)).1, heap := upd hs.heap hs.next (cl (hs.heap r)), next := hs.next + 1,
+         client := hs.client },
+       .out (hs.sys.step (o.withVal hs.next)).2)
+    | none =>
+      match (hs.sys.step o).2 with
+      | .hit r =>
+        ({ sys := (hs.sys.step o).1, heap := upd hs.heap hs.next (cl (hs.heap r)), next := hs.next + 1,
+           client := hs.next :: hs.client },
+         .out (.hit hs.next))
+      | out => ({ hs with sys := (hs.sys.step o).1 }, .out out)
+
 end Verif.SC
